@@ -161,6 +161,14 @@ impl Prop for C07 {
             ctx.fail(format!("C07/{runner}/no-return"), "execution ended without run() returning".to_string());
             return;
         };
+        if case.mt && o.dropped.iter().any(|d| !*d) {
+            // MTGraph::run() joins every block thread before it returns - also when a block failed
+            ctx.fail(
+                format!("C07/{runner}/threads-not-finished"),
+                format!("after run() returned ({:?}), blocks not yet dropped: {:?} (fault {:?})", ret.as_ref().map_err(|e| e.chars().take(40).collect::<String>()), o.dropped, case.fault),
+            );
+            return;
+        }
         match &case.fault {
             Fault::Fail { pos, k } => {
                 let p = *pos as usize % o.n.max(1);
